@@ -44,7 +44,7 @@ class C13(object):
                 "certificate is within the gap of every competitor")
 
     def gen(self, rng, tier):
-        n_cases = 100 if tier == 'quick' else 1200
+        n_cases = 100 if tier == 'quick' else 6000
         for _ in range(n_cases):
             kind = rng.choice(['capacity', 'capacity', 'closed', 'rd', 'rd', 'rd-mono', 'ib', 'ib', 'capacity-joint', 'capacity-joint'])
             if rng.random() < 0.2:
